@@ -26,7 +26,7 @@ def corr_dist(rng, drv, n_cases=20) -> Result:
     res = Result("min_image_distances", "correspondence")
     with Timer(res):
         for k in range(n_cases):
-            L = _random_lattice(rng)
+            L = _random_lattice(rng) if k % 4 else np.diag([rng.randint(3, 7) for _ in range(3)])
             n = rng.randint(2, 6)
             pts = set()
             while len(pts) < n:
@@ -48,6 +48,10 @@ def corr_dist(rng, drv, n_cases=20) -> Result:
             P2 = (P @ tm).tolist()
             req = {"op": "dist2", "S": S_GRID, "G": G, "positions": P2}
             m = drv.ask(req)
+            w = drv.ask({"op": "dist_window", "S": S_GRID, "G": G, "positions": P2})
+            # the decidable hypothesis of `computed_nearness_satisfies_the_cutoff_hypotheses` on this real input
+            res.count("window7_sufficient" if w["window7"] else "window7_NOT_sufficient")
+            res.count("coordinate_on_rint_boundary" if not w["no_boundary"] else "no_boundary_coordinate")
             res.case(req, True, sample={"lattice": L.tolist(), "n_atoms": n, "reduced_is_input": bool(np.array_equal(Bi, L))})
             res.count("reduction_changes_basis" if not np.array_equal(Bi, L) else "already_reduced")
             res.count(f"N{n}")
